@@ -41,6 +41,9 @@
 //
 // L lines: typed elements (== -equal but distinguishable floats, strings, structs), long inputs with
 // heavily repeated elements, the script re-read after the inputs were overwritten; see long.go.
+//
+// P <prelude> <line>: calls made before the case, in the same goroutine (a recovered panic inside
+// eq, a larger call), which the case must not notice; see round4.go.
 package main
 
 import (
@@ -96,6 +99,12 @@ func window(s, extra []int, guard int) (arr, win []int) {
 
 func exec(in string) string {
 	f := strings.Fields(strings.ReplaceAll(in, "_", " ")) // "_" for blanks: inputs reported by the extra steps
+	// calls made before (and after) the case (round4.go)
+	postlude = ""
+	if len(f) >= 3 && f[0] == "P" {
+		setPrelude(f[1])
+		f = f[2:]
+	}
 	if len(f) > 0 && f[0] == "L" {
 		return execL(f)
 	}
@@ -142,6 +151,7 @@ func exec(in string) string {
 	if p != "" {
 		return "PANIC " + strings.TrimPrefix(p, "panic:")
 	}
+	afterCall()
 	var sb strings.Builder
 	if len(es) == 0 {
 		sb.WriteString(".")
@@ -205,8 +215,11 @@ func ambiguous(l, r []int, mode int) bool {
 }
 
 func main() {
-	tr.Main("C11: every pair of sequences over 2 symbols to length 6 (quick) / 8 (thorough), over 3 symbols to length 4 / 5, over 2 keys x 2 payloads under the two key equivalences (v%2, v/2) to length 3 / 4; random pairs derived from a common base by dropping, inserting and overwriting runs (long common runs), over 2-4 symbols (heavy repetition), lengths to 60 (a few to 200), under ==, under key equivalences mod 2..4 and div 2..3, and (correspondence only, outside the precondition) under a non-transitive, an irreflexive and a non-symmetric relation, where the real code can panic and the model must predict it; and under a partial equivalence (3 related to nothing, as NaN under ==), which the theorems cover. In the aliased family both arguments are windows of ONE array (identical, same start with different lengths, nested, shifted, overlapping, disjoint). Every other input is a window into a larger array with guards in front and a spare capacity of 0..3 elements behind (sentinels, or elements of the alphabet). L lines (long.go): the same through []float64 (+0 / -0 / NaN), []string (equal text in distinct storage) and []struct (key with ignored payload) with the script read again after every element of both arrays was overwritten; small scopes at every type, random medium pairs, and long inputs with more than 4096 equal position pairs per call (random binary sequences of 100-300 elements, all-equal and periodic sequences, long views of one array), their outputs bounded by digests. Non-trivial = a side repeats an element (ambiguous alignment); distinct = distinct input lines.",
+	tr.Main("C11: every pair of sequences over 2 symbols to length 6 (quick) / 8 (thorough), over 3 symbols to length 4 / 5, over 2 keys x 2 payloads under the two key equivalences (v%2, v/2) to length 3 / 4; random pairs derived from a common base by dropping, inserting and overwriting runs (long common runs), over 2-4 symbols (heavy repetition), lengths to 60 (a few to 200), under ==, under key equivalences mod 2..4 and div 2..3, and (correspondence only, outside the precondition) under a non-transitive, an irreflexive and a non-symmetric relation, where the real code can panic and the model must predict it; and under a partial equivalence (3 related to nothing, as NaN under ==), which the theorems cover. In the aliased family both arguments are windows of ONE array (identical, same start with different lengths, nested, shifted, overlapping, disjoint). Every other input is a window into a larger array with guards in front and a spare capacity of 0..3 elements behind (sentinels, or elements of the alphabet). L lines (long.go): the same through []float64 (+0 / -0 / NaN), []string (equal text in distinct storage) and []struct (key with ignored payload) with the script read again after every element of both arrays was overwritten; small scopes at every type, random medium pairs, and long inputs with more than 4096 equal position pairs per call (random binary sequences of 100-300 elements, all-equal and periodic sequences, long views of one array), their outputs bounded by digests. Round 4 (round4.go): cases of every line form once more behind preludes (P lines: a recovered panic inside eq at the first call, mid-way, in the last row, at the last call of the table or in the re-matching loops, on []int and through == on []any; a much larger call that runs to its end; postludes between the call and the reading of its script; pools emptied before each); []string of pairs with equal 32-bit hashes (FNV-1/1a, CRC-32, Adler-32, 31/33-polynomials, sdbm) aligned and adjacent, strings of every length 1..600 one byte apart; every length 0..600 of one side against a thin other side; ints above 2^53. Non-trivial = a side repeats an element (ambiguous alignment); distinct = distinct input lines.",
 		exec, func(g *tr.G) {
+			// round 4, first: cases behind preludes (round4.go; first, while the heap is small: every
+			// one of them starts with two garbage collections)
+			genPreludes(g)
 			n := 0
 			// the spare capacity behind the two inputs: none at all, sentinels, or elements that
 			// look like input (so that an over-long slice would not stand out by its values only)
@@ -465,5 +478,7 @@ func main() {
 			}
 			// typed, long and poisoned cases (long.go)
 			genLong(g, allSeqs)
+			// strings with equal hashes, length sweeps with one thin side, big ints (round4.go)
+			genRound4(g, allSeqs)
 		})
 }
